@@ -104,6 +104,9 @@ type BuildDirective struct {
 	InjectorName string
 	Return       *Return
 	Providers    []*ProviderSpec
+	// visitedSets holds the Set variables whose providers are already part of Providers: a Set
+	// included along two paths (by two other Sets) contributes its providers once.
+	visitedSets map[*types.Var]struct{}
 }
 
 type InjectorParam struct {
